@@ -413,7 +413,7 @@ def run(ctx):
         t = P.fns[t_usr]
         ctx.use(t)
         ctx.count("stats_thread_roots")
-        esc = E.from_root(t, classes={"explicit", "absent", "text", "strpos", "assert"})
+        esc = E.from_root(t, classes={"explicit", "absent", "text", "strpos", "assert", "fs"})
         ctx.check(not esc, "thread-cannot-throw:" + short(creator), "E-ESCAPE", t.loc(), "no throw site escapes the thread started in " + creator.pq,
                   "an exception can escape the thread started in %s (std::terminate): %s" % (creator.pq, "; ".join("%s at %s" % (s.what, s.loc()) for s, _ in esc[:3])),
                   esc[0][1] if esc else None)
